@@ -35,11 +35,11 @@ Proof.
 Qed.
 
 (* an operation on one object leaves every other existing object as it was *)
-Theorem step_frame : forall st o j, (j < List.length st)%nat -> target o <> Some j ->
+Theorem step_frame : forall st o j, (j < List.length st)%nat -> target o <> Some j -> arg o <> Some j ->
   nth_error (fst (step st o)) j = nth_error st j.
 Proof.
-  intros st o j Hj Ht.
-  destruct o as [i|i c|i c|i c|i c|i|i p|i f|i p|i n|i|i n|z n|z n]; cbn [target] in Ht;
+  intros st o j Hj Ht Harg.
+  destruct o as [i|i c|i c|i c|i c|i|i p|i f|i p|i n|i|i n|z n|z n|i k]; cbn [target arg] in Ht, Harg;
     try (assert (Hne : i <> j) by congruence); cbn [step].
   - destruct (nth_error st i) as [[s|s u|]|]; try reflexivity. unfold do_take.
     destruct (nth_error st i) as [[s1|s1 u1|]|]; try reflexivity.
@@ -62,6 +62,12 @@ Proof.
       destruct (give_frame _ _ _ _ j Eg Hne) as [A B]. rewrite nth_error_app_old by lia. exact A.
   - reflexivity.
   - reflexivity.
+  - destruct (Nat.eqb i k); [reflexivity|].
+    destruct (nth_error st i) as [[s|s u|]|]; try reflexivity.
+    destruct (give st k) as [[[st' s']|]|e] eqn:Eg; try reflexivity.
+    assert (Hk : k <> j) by congruence.
+    destruct (give_frame _ _ _ _ j Eg Hk) as [A B].
+    rewrite apply_t_frame; [exact A|lia|exact Hne].
 Qed.
 
 Lemma apply_t_length : forall st i t, (List.length st <= List.length (fst (apply_t st i t)))%nat.
@@ -80,7 +86,7 @@ Qed.
 Lemma step_length : forall st o, (List.length st <= List.length (fst (step st o)))%nat.
 Proof.
   intros st o.
-  destruct o as [i|i c|i c|i c|i c|i|i p|i f|i p|i n|i|i n|z n|z n]; cbn [step];
+  destruct o as [i|i c|i c|i c|i c|i|i p|i f|i p|i n|i|i n|z n|z n|i k]; cbn [step];
     try apply apply_t_length; try (cbn; lia).
   - destruct (nth_error st i) as [[s|s u|]|]; try (cbn; lia). unfold do_take.
     destruct (nth_error st i) as [[s1|s1 u1|]|]; try (cbn; lia).
@@ -96,18 +102,22 @@ Proof.
     + destruct (nth_error st i) as [[s|s u|]|]; cbn; lia.
     + destruct (give st i) as [[[st' s]|]|e] eqn:Eg; cbn [fst]; try lia.
       rewrite app_length, (give_length _ _ _ _ Eg). lia.
+  - destruct (Nat.eqb i k); [cbn; lia|].
+    destruct (nth_error st i) as [[s|s u|]|]; try (cbn; lia).
+    destruct (give st k) as [[[st' s']|]|e] eqn:Eg; try (cbn; lia).
+    rewrite <- (give_length _ _ _ _ Eg). apply apply_t_length.
 Qed.
 
 (* Whatever is done, in any order and number, to the OTHER objects (the stream
    it was copied from, sibling copies, tee outputs, hub uses ...), an object
    keeps exactly its remaining sequence (and a hub its number of uses). *)
 Theorem copies_independent : forall ops st j e,
-  nth_error st j = Some e -> Forall (fun o => target o <> Some j) ops ->
+  nth_error st j = Some e -> Forall (fun o => target o <> Some j /\ arg o <> Some j) ops ->
   nth_error (final st ops) j = Some e.
 Proof.
   induction ops as [|o ops IH]; intros st j e Hj Hf; [exact Hj|].
-  inversion Hf as [|? ? Ho Hr]; subst. cbn [final]. apply IH; [|exact Hr].
-  rewrite step_frame; [exact Hj| |exact Ho]. apply nth_error_Some. congruence.
+  inversion Hf as [|? ? [Ho Ha] Hr]; subst. cbn [final]. apply IH; [|exact Hr].
+  rewrite step_frame; [exact Hj| |exact Ho|exact Ha]. apply nth_error_Some. congruence.
 Qed.
 
 (* copy(): the origin is unchanged and the new object has the same remaining sequence *)
@@ -117,13 +127,13 @@ Proof. intros st i s H. cbn [step]. rewrite H. reflexivity. Qed.
 
 (* the observation of an operation depends only on the object it is applied to
    (and on how many objects exist, for the id of a new one) *)
-Theorem step_local : forall st1 st2 o i, target o = Some i ->
+Theorem step_local : forall st1 st2 o i, target o = Some i -> arg o = None ->
   nth_error st1 i = nth_error st2 i -> List.length st1 = List.length st2 ->
   snd (step st1 o) = snd (step st2 o).
 Proof.
-  intros st1 st2 o i Ht Hn Hl.
-  destruct o as [k|k c|k c|k c|k c|k|k p|k f|k p|k n|k|k n|z n|z n]; cbn [target] in Ht;
-    inversion Ht; subst k; cbn [step]; unfold do_take, apply_t, give; rewrite <- ?Hn, ?Hl.
+  intros st1 st2 o i Ht Harg Hn Hl.
+  destruct o as [k|k c|k c|k c|k c|k|k p|k f|k p|k n|k|k n|z n|z n|k k2]; cbn [target arg] in Ht, Harg;
+    try discriminate Harg; inversion Ht; subst k; cbn [step]; unfold do_take, apply_t, give; rewrite <- ?Hn, ?Hl.
   - destruct (nth_error st1 i) as [[s|s u|]|]; try reflexivity. destruct (take_seq CNone s); reflexivity.
   - destruct (nth_error st1 i) as [[s|s u|]|]; try reflexivity. destruct (take_seq c s); reflexivity.
   - destruct (nth_error st1 i) as [[s|s [|u]|]|]; reflexivity.
@@ -280,3 +290,19 @@ Proof. reflexivity. Qed.
 
 Theorem tee_noniterable_repeats : forall st z n, step st (OTeeVal z n) = (st, OItems (repeat z n)).
 Proof. reflexivity. Qed.
+
+(* s.append(hub): the hub is charged one use at the time of the append (like
+   Stream(hub)); without a use left it is an IndexError and nothing changes *)
+Theorem append_hub_charges_use : forall st i j si s u, i <> j ->
+  nth_error st i = Some (EStream si) -> nth_error st j = Some (EHub s u) ->
+  step st (OAppendObj i j) =
+  match u with
+  | S u' => (set_nth i (EStream (lappend si s)) (set_nth j (EHub s u') st), OSelf)
+  | O => (st, ORaise "IndexError")
+  end.
+Proof.
+  intros st i j si s u Hne Hi Hj. cbn [step]. apply Nat.eqb_neq in Hne. rewrite Hne, Hi.
+  unfold give. rewrite Hj. destruct u as [|u']; [reflexivity|].
+  unfold apply_t. apply Nat.eqb_neq in Hne.
+  rewrite nth_error_set_nth_ne by congruence. rewrite Hi. reflexivity.
+Qed.
